@@ -1,7 +1,7 @@
 SPECIFICATION Spec
 CONSTANTS
   Deviations <- AllDevs
-  Families <- F_reduce
+  Families <- G_a
   Wide = FALSE
 INVARIANT AtenWellFormed
 INVARIANT DesignOK
